@@ -239,3 +239,24 @@ contract(F, "Fiber._checkUnique", types=dict(self="Fiber"), returns="opt[bool]",
                                    "forall(lambda k: coords[k] != coords[k + 1], 0, _i0 - 1)",
                                    "(_i0 == 0 and isnone(last)) or (_i0 > 0 and not isnone(last) and val(last) == coords[_i0 - 1])"])},
          note="adjacent duplicates are rejected (for an ordered fiber duplicates are adjacent)")
+
+contract(F, "Fiber.extend", types=dict(self="Fiber", other="Fiber"),
+         requires=["wf(self)", "wf(other)", "isnone(self._max_coord)", "not (self is other)",
+                   "not (self.coords is other.coords)", "not (self.payloads is other.payloads)",
+                   "not (self.coords is other.payloads)", "not (self.payloads is other.coords)",
+                   # ghost consistency: a fiber without elements is empty
+                   "implies(len(other.coords) == 0, other.g_empty)"],
+         raises={"AssertionError": dict(
+             when="(not other.g_empty) and len(self.coords) > 0 and self.coords[len(self.coords) - 1] >= other.coords[0]",
+             ensures={"C01": ["unchanged_list(self.coords)", "unchanged_list(self.payloads)"]})},
+         modifies=["list:self.coords", "list:self.payloads"],
+         ensures={"C01": [
+             "wf(self)", "unchanged_list(other.coords)", "unchanged_list(other.payloads)",
+             "implies(other.g_empty, unchanged_list(self.coords) and unchanged_list(self.payloads))",
+             "implies(not other.g_empty, len(self.coords) == old(len(self.coords)) + len(other.coords))",
+             "implies(not other.g_empty, same_elems(self.coords, old(seq(self.coords)), 0, old(len(self.coords))) and "
+             "same_elems(self.payloads, old(seq(self.payloads)), 0, old(len(self.coords))))",
+             # the other fiber's elements follow, with its own payload objects (not copied)
+             "implies(not other.g_empty, forall(lambda k: self.coords[old(len(self.coords)) + k] == other.coords[k] and "
+             "self.payloads[old(len(self.coords)) + k] is other.payloads[k], 0, len(other.coords)))"]},
+         note="an extension that would break the coordinate order is rejected and leaves the fiber as it was; an empty `other` (ghost emptiness, tier B) is a no-op")
